@@ -618,7 +618,13 @@ pub fn lifecycle(rng: &mut Rng) -> Program {
     let nclients = g.rng.range(1, 3) as usize;
     let nact = g.rng.weighted(&[70, 30]) + 1;
     for t in 0..nact {
-        let a = rand_actor(g.rng, 1 + t as u32, nclients, true);
+        let mut a = rand_actor(g.rng, 1 + t as u32, nclients, true);
+        // a one-shot job: it asks for its own stop from started() (or, rarely, from stopped(), where the request is moot)
+        if g.rng.chance(1, 12) {
+            a.started.push(SStep::CtxStop);
+        } else if g.rng.chance(1, 30) {
+            a.stopped.push(SStep::CtxStop);
+        }
         g.prog.actors.push(a);
     }
     // recreate strategy of k=0 actors uses the default spec: one per program is enough (spec looked up by tag)
@@ -981,7 +987,14 @@ pub fn timeout(rng: &mut Rng) -> Program {
                     _ => g.dur(),
                 }
             };
-            let script = if g.rng.chance(1, 5) && d >= 2 { vec![PStep::Sleep(d / 2), PStep::Yield, PStep::Sleep(d - d / 2)] } else { vec![PStep::Sleep(d)] };
+            let script = if g.rng.chance(1, 5) && d >= 2 {
+                vec![PStep::Sleep(d / 2), PStep::Yield, PStep::Sleep(d - d / 2)]
+            } else if g.rng.chance(1, 25) {
+                // asks for its own stop, then outlives (or not) the limit: the request stands either way
+                vec![PStep::CtxStop, PStep::Sleep(d)]
+            } else {
+                vec![PStep::Sleep(d)]
+            };
             let via_call = g.rng.chance(1, 2);
             // sometimes through a Sender / Caller
             if g.rng.chance(1, 6) {
